@@ -156,8 +156,10 @@ def r82(db, ctx):
 
 def u8_accumulations(db, f):
     """Yield (kind, description, span) for every 8-bit addition in f: kind in sat / wrap / generic."""
-    R = X.Rec(f)
     out = []
+    # closures defined in f are part of its body (a `fold` / `map` / `for_each` closure holds the addition of an iterator-style loop)
+    for g in common.closures_of(db, f):
+        out.extend(u8_accumulations(db, g))
     for bi, blk in enumerate(f.blocks):
         if blk['cleanup']:
             continue
